@@ -284,13 +284,17 @@ impl<'a> Tokenizer<'a> {
                 return Ok(Token::ArbitraryBlockData(u8str));
             }
 
-            let payload_len = lexical_core::parse::<usize>(
-                self.chars
-                    .as_slice()
-                    .get(..len as usize)
-                    .ok_or(ErrorCode::InvalidBlockData)?,
-            )
-            .map_err(|_| ErrorCode::InvalidBlockData)?;
+            let digits = self
+                .chars
+                .as_slice()
+                .get(..len as usize)
+                .ok_or(ErrorCode::InvalidBlockData)?;
+            // The length field consists of digits only, no sign
+            if !digits.iter().all(|c| c.is_ascii_digit()) {
+                return Err(ErrorCode::InvalidBlockData);
+            }
+            let payload_len =
+                lexical_core::parse::<usize>(digits).map_err(|_| ErrorCode::InvalidBlockData)?;
             self.chars.nth(len as usize - 1).unwrap();
             let u8str = self
                 .chars
